@@ -381,6 +381,43 @@ def check_castable_set_settles():
          "time_s": 0.0, **({} if not bad else {"failing_input": {**bad[0], "how": "real Simulator testbench: ctx.set on a struct- / enum-shaped signal, then ctx.get of logic that depends on it"}})}]}
 
 
+def check_clock_phase_zero():
+    """add_clock(period, phase=0): the first active edge is AT time 0 but after the testbenches have run up to their first
+    wait -- a value a testbench writes before its first `await ctx.tick()` is what the registers capture at that edge, the
+    tick returns at elapsed time 0, and the second edge comes one period later.  (With the default phase the same holds at
+    period/2.)"""
+    from amaranth.hdl import Module, Signal, Period
+    from amaranth.sim import Simulator
+    name = "engine[clock-phase-zero]"
+
+    def body(path):
+        parts = {}
+        for label, kw, t_first in (("phase=0", {"phase": Period()}, 0), ("default-phase", {}, 500_000_000)):
+            d, r, cnt = Signal(3, name="d"), Signal(3, name="r"), Signal(3, name="cnt")
+            m = Module()
+            m.d.sync += [r.eq(d), cnt.eq(cnt + 1)]
+            sim = Simulator(m)
+            sim.add_clock(Period(us=1), **kw)
+            v = path.var(f"v_{label}", 0, 7)
+            res = {}
+
+            async def tb(ctx, d=d, r=r, cnt=cnt, v=v, res=res):
+                ctx.set(d, v)
+                await ctx.tick()
+                res["t1"] = ctx.elapsed_time().femtoseconds
+                res["r1"], res["c1"] = ctx.get(r), ctx.get(cnt)
+                await ctx.tick()
+                res["t2"] = ctx.elapsed_time().femtoseconds
+                res["c2"] = ctx.get(cnt)
+            sim.add_testbench(tb)
+            with symbolic_engine():
+                sim.run_until(Period(us=3))
+            path.prove(f"{name}::{label}::first-edge-time", res.get("t1") == t_first)
+            path.prove(f"{name}::{label}::first-edge-samples-the-value-written-before-it", And(to_sint(res["r1"]) == v, to_sint(res["c1"]) == 1))
+            path.prove(f"{name}::{label}::second-edge-one-period-later", And(res.get("t2") == t_first + 1_000_000_000, to_sint(res["c2"]) == 2))
+    return runner.from_exploration(name, Exploration(name, body).run())
+
+
 def check_testbench_order():
     """testbenches run in the order in which they were added, also when an earlier one wakes a later one in the middle of
     a pass: `monitor` (added second, waiting for `valid`) sees the data `driver` (added first) wrote, not what `other`
@@ -540,7 +577,7 @@ def check_kernel_agrees(k, e=None, broken=False):
 def tasks(tier):
     ts = [("engine-chain", edge, rot) for edge in ("pos", "neg") for rot in ((0, 1, 2, 3) if tier == "quick" else range(6))]
     ts += [("engine-proc", "comb"), ("engine-proc", "sync"), ("engine-proc", "after-reset"), ("engine-tb-order",)]
-    ts += [("engine-lhs-selector", f) for f in ("array", "bit_select", "word_select")] + [("engine-castable-set",)]
+    ts += [("engine-lhs-selector", f) for f in ("array", "bit_select", "word_select")] + [("engine-castable-set",), ("engine-clock-phase-zero",)]
     ts += kernel_tasks(tier)
     return ts
 
@@ -549,6 +586,8 @@ def run_task(task):
     k = task[0]
     if k == "engine-chain":
         return check_chain(task[1], task[2])
+    if k == "engine-clock-phase-zero":
+        return check_clock_phase_zero()
     if k == "engine-castable-set":
         return check_castable_set_settles()
     if k == "engine-lhs-selector":
